@@ -183,6 +183,16 @@ func (fv *FV) enterBlock(st *State, from, to *ssa.BasicBlock) *State {
 		fv.reportErrs(errs)
 		return nil // path ends at the back edge
 	}
+	// C13: a range over a Go map visits entries in an unspecified order; the loop must be
+	// order-insensitive (syntactic criterion, see orderInsensitive)
+	if isMapRangeLoop(li) {
+		ok, why := fv.orderInsensitive(li)
+		goal := tTrue
+		if !ok {
+			goal = tFalse
+		}
+		fv.oblige(st, "order", fmt.Sprintf("loop%d", li.Ord), pos, goal, "range over a map must be order-insensitive: "+why)
+	}
 	// entry: havoc everything the loop may modify, assume invariant
 	fv.havocLoop(st, li)
 	env = fv.stateEnv(st, &errs)
@@ -537,4 +547,102 @@ func (fv *FV) mapFrameCheck(st *State, m Term, pos token.Pos) {
 // guardCheck: guarded_by discipline is implemented in locks.go (no-op until configured).
 func (fv *FV) guardCheck(st *State, m ssa.Value, pos token.Pos) {
 	fv.guardCheckImpl(st, m, pos)
+}
+
+func isMapRangeLoop(li *LoopInfo) bool {
+	for c := range li.Cells {
+		if r, ok := c.(*ssa.Range); ok {
+			if _, isMap := r.X.Type().Underlying().(*types.Map); isMap {
+				return true
+			}
+		}
+	}
+	return false
+}
+
+// orderInsensitive: the body of a map-range loop may only (a) store into another map / call a
+// Set(key, value) method using the RANGE KEY as the key (a copy loop: distinct keys never collide),
+// (b) call functions without side effects on the heap (assigns nothing), (c) return early.
+// Anything else (evaluating sub-expressions with side effects, writing under a derived key) makes the
+// result depend on the visiting order.
+func (fv *FV) orderInsensitive(li *LoopInfo) (bool, string) {
+	var keyVals = map[ssa.Value]bool{}
+	for b := range li.Body {
+		for _, in := range b.Instrs {
+			if ex, ok := in.(*ssa.Extract); ok && ex.Index == 1 {
+				if _, isNext := ex.Tuple.(*ssa.Next); isNext {
+					keyVals[ex] = true
+				}
+			}
+		}
+	}
+	// values that are loads of a local holding the key
+	isKey := func(v ssa.Value) bool {
+		for i := 0; i < 4; i++ {
+			if keyVals[v] {
+				return true
+			}
+			switch y := v.(type) {
+			case *ssa.UnOp:
+				// load of a local cell that was assigned the key
+				if a, ok := y.X.(*ssa.Alloc); ok {
+					for _, ref := range *a.Referrers() {
+						if st, ok := ref.(*ssa.Store); ok && st.Addr == ssa.Value(a) && keyVals[st.Val] {
+							return true
+						}
+					}
+				}
+				return false
+			case *ssa.MakeInterface:
+				v = y.X
+			case *ssa.ChangeType:
+				v = y.X
+			default:
+				return false
+			}
+		}
+		return false
+	}
+	for b := range li.Body {
+		for _, in := range b.Instrs {
+			switch x := in.(type) {
+			case *ssa.MapUpdate:
+				if !isKey(x.Key) {
+					return false, "map store under a key that is not the range key at " + fv.eng.pos(x.Pos())
+				}
+			case ssa.CallInstruction:
+				c := x.Common()
+				if _, isB := c.Value.(*ssa.Builtin); isB && !c.IsInvoke() {
+					continue
+				}
+				name := ""
+				if c.IsInvoke() {
+					name = c.Method.Name()
+				} else if f := c.StaticCallee(); f != nil {
+					name = f.Name()
+					if spec := fv.eng.specs.Funcs[funcKey(f)]; spec != nil && spec.AssignsSet && len(spec.Assigns) == 0 && !spec.AssignsAll && !spec.Fresh {
+						continue // no heap effects
+					}
+					if fv.canInline(f) && fv.eng.specs.Funcs[funcKey(f)] == nil {
+						continue // small pure helper, inlined
+					}
+				}
+				if name == "Set" {
+					args := c.Args
+					if !c.IsInvoke() && len(args) > 0 {
+						args = args[1:]
+					}
+					if len(args) >= 1 && isKey(args[0]) {
+						continue
+					}
+					return false, "Set under a key that is not the range key at " + fv.eng.pos(in.Pos())
+				}
+				if name == "Has" || name == "Value" {
+					continue
+				}
+				return false, "call with possible side effects (" + name + ") at " + fv.eng.pos(in.Pos())
+			}
+		}
+	}
+	return true, "copy loop keyed by the range key"
 }
